@@ -1,0 +1,14 @@
+//go:build verif
+
+package rtsp
+
+// VerifIsClosed reports whether the command connection of a started pull session has been closed
+// (Dispose or read error).  A zero-length write is the only probe naza's connection offers; it
+// transfers nothing.
+func (session *PullSession) VerifIsClosed() bool {
+	if session.cmdSession == nil || session.cmdSession.conn == nil {
+		return false
+	}
+	_, err := session.cmdSession.conn.Write(nil)
+	return err != nil
+}
